@@ -46,6 +46,7 @@ C08_DETECT(has_minimum, DV.minimum())
 C08_DETECT(has_maximum, DV.maximum())
 C08_DETECT(has_mask_load, DV.mask_load((const typename V::scalar_value_type *)nullptr, 1, false))
 C08_DETECT(has_mask_store, DCV.mask_store((typename V::scalar_value_type *)nullptr, 1, false))
+C08_DETECT(has_cast, DV.template cast<double>())
 C08_DETECT(has_broadcast, DV.broadcast((const typename V::scalar_value_type *)nullptr))
 C08_DETECT(has_set_seq, DV.set_sequential(DS))
 C08_DETECT(has_aligned_load, DV.aligned_load((const typename V::scalar_value_type *)nullptr))
@@ -510,6 +511,37 @@ void vec(vf::Draw &d, vf::Ctx &ctx) {
         if constexpr (FL && has_sqrt<V>::value) { for (size_t i = 0; i < S; ++i) r[i] = std::sqrt(a[i]); if (!expect(ctx, "sweep: sqrt", sqrt(va), r, a, (T *)nullptr)) ++bad; }
       }
     } else { ctx.label("absent:sweep32"); }
+  }
+
+  else if constexpr (OP == 16) {
+    // comparison and logical operators, three call forms each (vector OP vector, vector OP scalar, scalar OP vector: three separate
+    // generic templates); the result is a SIMDVector<bool, fixed_size<S>> read back lane by lane
+    if constexpr (!CX) {
+      gen(d, a, S, cls, ANY); gen(d, b, S, cls, ANY);
+      // make ties and both orders certain: copy some lanes of a into b, and pick the scalar from b
+      for (size_t i = 0; i < S; i += 3) b[i] = a[i];
+      T s = b[S > 1 ? 1 : 0];
+      ctx.nt(lanes_interesting(a, S));
+      V va(a, false), vb(b, false);
+      auto rd = [&](const char *what, const SIMDVector<bool, simd_abi::fixed_size<S>> &res, auto &&f) {
+        alignas(64) bool got[S + 64]; res.store(got, false);
+        for (size_t i = 0; i < S; ++i) { bool want = f(i); if (got[i] != want) { ctx.fail("%s: lane %zu got %s expected %s (a=%s b=%s s=%s)", what, i, got[i] ? "true" : "false", want ? "true" : "false",
+                                                                                    vfo::show(a[i]).c_str(), vfo::show(b[i]).c_str(), vfo::show(s).c_str()); return; } }
+      };
+#define VF_CMP(OPR, NAME) \
+      rd("vec " NAME " vec", va OPR vb, [&](size_t i) { return (bool)(a[i] OPR b[i]); }); \
+      rd("vec " NAME " scalar", va OPR s, [&](size_t i) { return (bool)(a[i] OPR s); }); \
+      rd("scalar " NAME " vec", s OPR va, [&](size_t i) { return (bool)(s OPR a[i]); });
+      VF_CMP(==, "==") VF_CMP(!=, "!=") VF_CMP(<, "<") VF_CMP(>, ">") VF_CMP(<=, "<=") VF_CMP(>=, ">=") VF_CMP(&&, "&&") VF_CMP(||, "||")
+#undef VF_CMP
+      // cast<U>() (provided by the generic array implementation only): lane i = static_cast<U>(lane i)
+      if constexpr (has_cast<V>::value) {
+        auto w = va.template cast<double>();
+        alignas(64) double got[S + 8]; w.store(got, false);
+        for (size_t i = 0; i < S; ++i) { double want = static_cast<double>(a[i]); if (std::memcmp(&got[i], &want, sizeof want) != 0) { ctx.fail("cast<double>(): lane %zu got %.17g expected %.17g", i, got[i], want); break; } }
+        ctx.label("cast:checked");
+      } else ctx.label("absent:cast");
+    } else { ctx.label("absent:comparison (complex)"); }
   }
 }
 } // namespace c08
